@@ -1,6 +1,7 @@
 package rig
 
 import (
+	"sync"
 	"sync/atomic"
 	"time"
 )
@@ -11,6 +12,14 @@ import (
 type Canary struct {
 	max  int64
 	stop chan struct{}
+
+	mu      sync.Mutex
+	samples []canarySample // every sleep that overshot by more than 1 ms
+}
+
+type canarySample struct {
+	from, to time.Time
+	over     time.Duration
 }
 
 func StartCanary() *Canary {
@@ -23,8 +32,15 @@ func StartCanary() *Canary {
 				return
 			case <-time.After(5 * time.Millisecond):
 			}
-			if d := int64(time.Since(t0) - 5*time.Millisecond); d > atomic.LoadInt64(&c.max) {
+			t1 := time.Now()
+			d := int64(t1.Sub(t0) - 5*time.Millisecond)
+			if d > atomic.LoadInt64(&c.max) {
 				atomic.StoreInt64(&c.max, d)
+			}
+			if d > int64(time.Millisecond) {
+				c.mu.Lock()
+				c.samples = append(c.samples, canarySample{t0, t1, time.Duration(d)})
+				c.mu.Unlock()
 			}
 		}
 	}()
@@ -33,6 +49,22 @@ func StartCanary() *Canary {
 
 // Max is the largest oversleep seen so far.
 func (c *Canary) Max() time.Duration { return time.Duration(atomic.LoadInt64(&c.max)) }
+
+// MaxBetween is the largest oversleep of a sleep that overlapped [from, to] (1 ms when none overshot by more).
+func (c *Canary) MaxBetween(from, to time.Time) time.Duration {
+	m := time.Millisecond
+	c.mu.Lock()
+	defer c.mu.Unlock()
+	for _, s := range c.samples {
+		if s.to.Before(from) || s.from.After(to) {
+			continue
+		}
+		if s.over > m {
+			m = s.over
+		}
+	}
+	return m
+}
 
 // Reset forgets the maximum (per-scenario measurement).
 func (c *Canary) Reset() { atomic.StoreInt64(&c.max, 0) }
